@@ -194,6 +194,9 @@ var c17Patches = []string{
 	"@@\n@@\n-return 0\n+return zero()\n",
 	"@@\n@@\n-other\n+another\n",
 	"@@\nvar f identifier\n@@\n-func f() int {\n+func f(ctx Ctx) int {\n   ...\n }\n",
+	"@@\nvar f identifier\n@@\n-func f(tgtMarker int) {\n-  ...\n-}\n+var f = 1\n",
+	"@@\nvar n identifier\n@@\n-var n = tgtFn\n+func n() {\n+  tgtFn()\n+}\n",
+	"@@\nvar N identifier\n@@\n-type N tgtAlias\n+type N = tgtAlias\n",
 }
 
 // commentDenseFile generates a file with comments of every kind at every attachment point.
@@ -238,7 +241,16 @@ func commentDenseFile(g *gen.G) string {
 		case 2:
 			sb.WriteString(cm("directive") + "\n")
 		}
-		switch r.Intn(6) {
+		switch r.Intn(9) {
+		case 6:
+			fmt.Fprintf(&sb, "func old%d(tgtMarker int) { %s\n\tother(%d) %s\n}%s\n\n", i, cm("line"), i, cm("line"), map[bool]string{true: " " + cm("line"), false: ""}[r.Intn(2) == 0])
+			continue
+		case 7:
+			fmt.Fprintf(&sb, "var w%d = tgtFn%s\n\n", i, map[bool]string{true: " " + cm("line"), false: ""}[r.Intn(2) == 0])
+			continue
+		case 8:
+			fmt.Fprintf(&sb, "type N%d tgtAlias%s\n\n", i, map[bool]string{true: " " + cm("line"), false: ""}[r.Intn(2) == 0])
+			continue
 		case 0:
 			fmt.Fprintf(&sb, "var v%d = %d %s\n\n", i, i, cm("line"))
 			continue
@@ -289,7 +301,7 @@ func init() {
 		ID:    "C17",
 		Level: "exploration",
 		Rule: "cases: comment-dense generated files (file header, //go:build, package doc, doc, end-of-line, free-standing, block comments inside expressions, directives, trailing file comment) with 0-8 rewritten declarations " +
-			"interleaved with untouched ones x 12 patches (statement patterns with elision, declaration patterns that change signatures, deletions, multi-change patches), plus standard-library files with the C05 corpus patterns; library API and CLI. " +
+			"interleaved with untouched ones x 15 patches (incl. whole-declaration replacements func<->var, type->alias) and 2-3 change combinations (statement patterns with elision, declaration patterns that change signatures, deletions, multi-change patches), plus standard-library files with the C05 corpus patterns; library API and CLI. " +
 			"Oracle: comments attributed to top-level declarations by source interval on both sides (doc, interior, same-line trailing, detached-before); for every declaration whose syntax is canonically unchanged the lists must be equal and in order; " +
 			"header/package comments unchanged; global multiset inclusion (nothing invented or duplicated). non-trivial = file was rewritten and has >=1 untouched declaration carrying comments; distinct = (file hash, patch).",
 		Assumptions: []string{"import declarations take part only in the multiset check (sorting/merging moves their comments)",
@@ -323,8 +335,12 @@ func runC17(ctx *core.Ctx, idx int) *core.Result {
 		}
 	} else {
 		pt = c17Patches[r.Intn(len(c17Patches))]
-		if r.Intn(3) == 0 {
+		switch r.Intn(4) {
+		case 0:
 			pt = pt + "\n" + c17Patches[r.Intn(len(c17Patches))]
+		case 1:
+			// an earlier change that matches somewhere, then a declaration-replacing change
+			pt = c17Patches[r.Intn(3)] + "\n" + c17Patches[12+r.Intn(3)] + "\n" + pt
 		}
 		for f := 0; f < 6; f++ {
 			s := commentDenseFile(g)
